@@ -74,25 +74,22 @@ impl WaitGroup {
   ///
   /// If the counter is already zero when called, returns immediately.
   pub async fn wait(&self) {
-    // Fast path: Check if already zero.
-    // Acquire load synchronizes with the AcqRel fetch_sub in done().
-    if self.count.load(Ordering::Acquire) == 0 {
-      tracing::trace!("WaitGroup::wait() called when count is already zero");
-      return;
-    }
-
-    // Slow path: Wait for notification.
     loop {
-      // Wait until notified. notified() consumes a permit.
-      self.notify_on_zero.notified().await;
+      // Register with the Notify before reading the counter: notify_waiters() only wakes
+      // futures that already exist, so a done() that brings the count to zero between the
+      // check and the wait would otherwise be missed and wait() would never return.
+      let notified = self.notify_on_zero.notified();
+      tokio::pin!(notified);
+      notified.as_mut().enable();
 
-      // Check count again after notification (spurious wakeup or race check).
+      // Acquire load synchronizes with the AcqRel fetch_sub in done().
       if self.count.load(Ordering::Acquire) == 0 {
-        tracing::trace!("WaitGroup::wait() released after notification");
+        tracing::trace!("WaitGroup::wait() released: count is zero");
         return;
       }
-      tracing::trace!("WaitGroup::wait() woke, but count is non-zero; re-waiting");
-      // If count is still non-zero, loop and wait again.
+
+      notified.await;
+      // Loop: re-check the count (another add() may have raised it again).
     }
   }
 
